@@ -255,6 +255,9 @@ func (ex *Exec) bulkCopy(st *State, in ssa.Instruction, et types.Type, dst, src 
 					st.setRegionLen(r.Val.Int64(), nil)
 				}
 			} else {
+				if traceOn {
+					fmt.Printf("SEGLOST bulk copy (%s) to symbolic region %s\n", why, Rg(dst.Base).SMT())
+				}
 				st.regionSeq = nil
 				st.regionLen = nil
 			}
